@@ -25,8 +25,11 @@ FULL STATEMENT (not proved): for every class and every supported size (DESIGN.md
 everything except `Color666PlanarCode` L ≥ 3 and `Color666ToricCode` L ≥ 2 (6.6.6 colour codes
 have d² > n, so disjoint representatives cannot exist, and the enumeration below `d` is beyond
 the kernel).  `coverage_<Class>` pins how many instances of each table are certified, so a
-silently shrinking coverage breaks the build.  Missing for the full statement: all-sizes
-lattice arguments (unbounded in L).
+silently shrinking coverage breaks the build.  ALL SIZES (unbounded in L) are proved for the
+three hand-modelled 2-D surface codes in `Properties/C17Toric2DCode.lean` (`Lx, Ly ≥ 2`),
+`Properties/C17Planar2DCode.lean` and `Properties/C17RotatedPlanar2DCode.lean` (`Lx, Ly ≥ 1`):
+`IsDistance n H (min Lx Ly)` and `code.d = min Lx Ly` for every lattice size, by packing with
+lattice translates.  Missing for the full statement: the same for the other 13 classes.
 -/
 import PanqecVerif.Instances.DistAll
 import PanqecVerif.Proofs.Dist
